@@ -369,7 +369,9 @@ class Runner:
             if not isinstance(d, dict) or "h" not in d:
                 continue
             if "expected" in d:
-                mism.setdefault(d["h"], d)
+                # several branches (silent evictions) may fail at different lines: keep the one that got furthest
+                if d["h"] not in mism or d.get("line", 0) > mism[d["h"]].get("line", 0):
+                    mism[d["h"]] = d
             elif "used" in d:
                 reports.setdefault(d["h"], []).append(d)
         if r.violated and r.violated.startswith("T"):
